@@ -79,6 +79,26 @@ Dispatch(line, names, max) ==
         IF \E i \in 1..Len(names) : names[i] = cmd THEN [called |-> TRUE, name |-> cmd, argc |-> a.argc]
         ELSE [called |-> FALSE, name |-> <<>>, argc |-> 0]
 
+
+\* ----- creader (igris/creader.h): a cursor over a text of known length ------------------------------------------
+\* readline: the next line is the run of characters up to the next LF (or the end of the text); carriage returns directly in front of
+\* that LF are not part of the line; the cursor moves behind the LF (to the end of the text for an unterminated last line); at the end of
+\* the text the answer is -1.  Texts with NUL bytes are outside this definition.  cur is 0-based.
+RECURSIVE NextLF(_, _)
+NextLF(s, i) == IF i > Len(s) THEN Len(s) + 1 ELSE IF s[i] = 10 THEN i ELSE NextLF(s, i + 1)       \* 1-based index of the LF, or Len + 1
+RECURSIVE StripCR(_)
+StripCR(x) == IF x # <<>> /\ x[Len(x)] = 13 THEN StripCR(SubSeq(x, 1, Len(x) - 1)) ELSE x
+ReadLine(s, cur) ==
+   IF cur >= Len(s) THEN [ret |-> -1, tok |-> cur, cur |-> cur]
+   ELSE LET e == NextLF(s, cur + 1)
+            raw == SubSeq(s, cur + 1, e - 1)
+        IN [ret |-> IF e <= Len(s) THEN Len(StripCR(raw)) ELSE Len(raw), tok |-> cur, cur |-> IF e <= Len(s) THEN e ELSE Len(s)]
+\* all lines: <<token offset, length>> per call until the call that answers -1 (at most Len(s) + 1 calls)
+RECURSIVE ReadAll(_, _, _)
+ReadAll(s, cur, acc) == LET r == ReadLine(s, cur) IN IF r.ret = -1 THEN acc ELSE ReadAll(s, r.cur, Append(acc, <<r.tok, r.ret>>))
+\* skip: the cursor moves over the characters that are in the set; the count of characters passed
+CSkip(s, cur, set) == LET j == SkipIn(s, cur + 1, set) IN [ret |-> j - 1 - cur, cur |-> j - 1]
+
 \* ----- paths: components are the maximal slash-free runs; "." components are skipped ------------
 Slash == 47
 Dot == 46
